@@ -250,6 +250,12 @@ def gen_api_history(seed, nops=30, malformed=0.25, with_io=None, caller_mut=0.0,
             if nf == nframes and nf > 0 and dev in (None, "nframes") and ns == S.nabf() and ns > 0 and len(set(names)) == len(names) \
                and not any(n in S.chs for n in names) and all(b == ns for a, b in S.frames):
                 S.chs.extend(names)
+        elif c < 0.84 and r.random() < 0.07:   # hand a parameter STORED in the object back to it, into a new or an existing group
+            sg, sp = r.choice([(b"POINT", b"RATE"), (b"POINT", b"LABELS"), (b"ANALOG", b"USED"), (b"FORCE_PLATFORM", b"ZERO"), (b"ANALOG", b"SCALE")] if not bad
+                              else [(b"POINT", b"NOPE"), (b"NOGROUP", b"RATE"), (b"POINT", b"UNITS")])
+            dg = r.choice(groups) if r.random() < 0.3 else g.simple_name(b"G")
+            if dg not in groups: groups.append(dg)
+            L.append("paramself %s %s %s" % (xhex(sg), xhex(sp), xhex(dg))); g.count("op_paramself")
         elif c < 0.84:  # parameter edits
             k = r.random()
             if k < 0.5:
